@@ -538,26 +538,25 @@ impl QueryRouter {
 
                 // Likely a read-only query
                 Query(query) => {
-                    if primary_set_based_on_activity {
-                        // If we already set the role based on activity, we don't need to do it again
-                        continue;
-                    }
+                    // If we already set the role based on activity, we don't need to do it again.
+                    // The shard is still inferred from the statement below.
+                    if !primary_set_based_on_activity
+                        && self.pool_settings.db_activity_based_routing
+                        && self.query_handles_tables_in_mutation_cache(query)
+                    {
+                        // The tables in the query have been written to recently
+                        debug!("Query handles tables in mutation cache, going to primary");
 
-                    if self.pool_settings.db_activity_based_routing {
-                        // Check if the tables in the query have been written to recently
-                        if self.query_handles_tables_in_mutation_cache(query) {
-                            debug!("Query handles tables in mutation cache, going to primary");
-
-                            self.active_role = Some(Role::Primary);
-                            primary_set_based_on_activity = true;
-                            continue;
-                        }
+                        self.active_role = Some(Role::Primary);
+                        primary_set_based_on_activity = true;
                     }
 
                     let has_locks = !query.locks.is_empty();
                     let has_mutation = Self::is_mutation_query(query);
 
-                    if has_locks || has_mutation {
+                    if primary_set_based_on_activity {
+                        // The role is settled.
+                    } else if has_locks || has_mutation {
                         // A later plain SELECT in the same message must not undo this.
                         visited_write_statement = true;
                         self.active_role = Some(Role::Primary);
